@@ -325,8 +325,9 @@ def ground_axioms(enc, ob):
                 18.0, 30.0, 50.0, 100.0, 250.0, 1000.0]
         # the knees of the piecewise transfer functions (sRGB, Rec.709/2020, ProPhoto) and their images, so that the enclosure is tight
         # exactly where the code switches segment
-        GRID = sorted(set(GRID + [0.0031308, 0.04045, (0.04045 + 0.055) / 1.055, 0.018, 0.081, (0.081 + 0.099) / 1.099, 0.018053968510807,
-                                  0.001953125, 0.03125, 1.0 / 512.0]))
+        KNEES = [0.0031308, 0.04045, (0.04045 + 0.055) / 1.055, 0.018, 0.081, (0.081 + 0.099) / 1.099, 0.018053968510807,
+                 0.001953125, 0.03125, 1.0 / 512.0]
+        TRANSFER_EXPONENTS = [2.4, 1 / 2.4, 0.45, 1 / 0.45, 1.8, 1 / 1.8]
         up = lambda v: v * (1 + 1e-12) if v >= 0 else v * (1 - 1e-12)
         dn = lambda v: v * (1 - 1e-12) if v >= 0 else v * (1 + 1e-12)
         for (x, pnode), i in pows:
@@ -335,7 +336,8 @@ def ground_axioms(enc, ob):
                 continue
             X, R = N(x), N(i)
             concave = pv < 1
-            for a in GRID:
+            grid = sorted(set(GRID + KNEES)) if any(abs(pv - e) < 1e-9 for e in TRANSFER_EXPONENTS) else GRID
+            for a in grid:
                 c, sl = a ** pv, pv * a ** (pv - 1)
                 if concave:   # R <= tangent
                     add("x^p below its tangents (p < 1) / above its tangents (p > 1), x >= 0",
@@ -345,7 +347,7 @@ def ground_axioms(enc, ob):
                     add("x^p below its tangents (p < 1) / above its tangents (p > 1), x >= 0",
                         f"(=> (>= {X} 0.0) (and (=> (>= {X} {fr(a)}) (>= {R} (+ {fr(dn(c))} (* {fr(dn(sl))} (- {X} {fr(a)}))))) "
                         f"(=> (<= {X} {fr(a)}) (>= {R} (+ {fr(dn(c))} (* {fr(up(sl))} (- {X} {fr(a)})))))))")
-            pts = [0.0] + GRID
+            pts = [0.0] + grid
             for a, b in zip(pts, pts[1:]):
                 A, Bv = a ** pv, b ** pv
                 w = b - a
